@@ -3,6 +3,7 @@ pub mod common;
 pub mod recon;
 
 pub mod apifam;
+pub mod live;
 
 pub mod c01;
 pub mod c02;
